@@ -5,7 +5,7 @@
 //!     universe, get_pair of every index 0..len+2, keys, iter, to_vec, indexed_iter, into_iter),
 //!     textually against the Lean model.  Oracle: the same observations against a plain `Vec`-based
 //!     insertion-ordered map written here.
-//! (b) state model: see `sm` below.
+//! (b) state model and (c) collect_features + extend: see below.
 use crate::ctx::{fbits, Ctx};
 use crate::rng::Rng;
 use routee_compass_core::util::compact_ordered_hash_map::CompactOrderedHashMap;
@@ -63,23 +63,6 @@ fn entry_parts<T: std::fmt::Debug>(e: &T) -> (String, usize) {
     (v, i)
 }
 
-/// inside every run of consecutive items with the same sort key, order by key
-fn canon_runs(items: Vec<(usize, u64, String)>) -> Vec<String> {
-    let mut out = vec![];
-    let mut i = 0;
-    while i < items.len() {
-        let mut j = i + 1;
-        while j < items.len() && items[j].0 == items[i].0 {
-            j += 1;
-        }
-        let mut run: Vec<(u64, String)> = items[i..j].iter().map(|x| (x.1, x.2.clone())).collect();
-        run.sort_by_key(|x| x.0);
-        out.extend(run.into_iter().map(|x| x.1));
-        i = j;
-    }
-    out
-}
-
 fn list_s(xs: &[String]) -> String {
     let mut v = vec![xs.len().to_string()];
     v.extend(xs.iter().cloned());
@@ -132,42 +115,17 @@ fn observe(u: u64, m: &Map) -> Obs {
 }
 
 fn snapshot(o: &Obs) -> String {
-    let mult = |i: usize| o.idx.iter().filter(|x| **x == Some(i)).count();
-    let amb = |i: usize| mult(i) > 1;
     let opt = |x: &Option<String>| x.clone().unwrap_or_else(|| "-".to_string());
     let get: Vec<String> = o.get.iter().map(|x| opt(&x.map(|v| v.to_string()))).collect();
     let idx: Vec<String> = o.idx.iter().map(|x| opt(&x.map(|v| v.to_string()))).collect();
     let has: Vec<String> = o.has.iter().map(|x| if *x { "1".to_string() } else { "0".to_string() }).collect();
-    let pair: Vec<String> = o
-        .pair
-        .iter()
-        .enumerate()
-        .map(|(i, p)| if amb(i) { "amb".to_string() } else { opt(&p.map(|(k, v)| format!("{}:{}", k, v))) })
-        .collect();
-    let keys = canon_runs(
-        o.keys
-            .iter()
-            .map(|k| (o.idx.get(*k as usize).copied().flatten().unwrap_or(0), *k, k.to_string()))
-            .collect(),
-    );
-    let iter: Vec<String> = o
-        .iter
-        .iter()
-        .enumerate()
-        .map(|(i, (k, v))| if amb(i) { "amb".to_string() } else { format!("{}:{}", k, v) })
-        .collect();
-    let vec: Vec<String> = o
-        .vec
-        .iter()
-        .enumerate()
-        .map(|(i, (k, v, ix))| if amb(i) { "amb".to_string() } else { format!("{}:{}:{}", k, v, ix) })
-        .collect();
-    let iiter: Vec<String> = o
-        .iiter
-        .iter()
-        .map(|(i, k, v)| if amb(*i) { format!("{}:amb", i) } else { format!("{}:{}:{}", i, k, v) })
-        .collect();
-    let into = canon_runs(o.into.iter().map(|(k, v, ix)| (*ix, *k, format!("{}:{}:{}", k, v, ix))).collect());
+    let pair: Vec<String> = o.pair.iter().map(|p| opt(&p.map(|(k, v)| format!("{}:{}", k, v)))).collect();
+    let keys: Vec<String> = o.keys.iter().map(|k| k.to_string()).collect();
+    let iter: Vec<String> = o.iter.iter().map(|(k, v)| format!("{}:{}", k, v)).collect();
+    let vec: Vec<String> = o.vec.iter().map(|(k, v, ix)| format!("{}:{}:{}", k, v, ix)).collect();
+    let iiter: Vec<String> = o.iiter.iter().map(|(i, k, v)| format!("{}:{}:{}", i, k, v)).collect();
+    let into: Vec<String> = o.into.iter().map(|(k, v, ix)| format!("{}:{}:{}", k, v, ix)).collect();
+    // (`get`/`idx`/`has` are empty strings when the universe is empty; both sides normalise blanks)
     format!(
         "| len {} emp {} get {} idx {} has {} pair {} keys {} iter {} vec {} iiter {} into {}",
         o.len,
@@ -182,8 +140,6 @@ fn snapshot(o: &Obs) -> String {
         list_s(&iiter),
         list_s(&into)
     )
-    // `get`/`idx`/`has` are empty strings when the universe is empty; tokens are split on runs of
-    // blanks on the Lean side and the comparison is done after the same normalisation below
 }
 
 fn norm(s: String) -> String {
@@ -265,7 +221,9 @@ fn run_cont(ctx: &mut Ctx, idx: usize, u: u64, init: Init, ops: Vec<(u64, i64)>)
         ops.len(),
         ops.iter().map(|(k, v)| format!("ins {} {}", k, v)).collect::<Vec<_>>().join(" ")
     );
-    // oracle key: a history that starts from `new`/`From` with a repeated key is reported separately
+    // oracle key: a history that starts from `new`/`From` with a repeated key is reported under the key of
+    // the defect repaired in /repo 6da9498 (the reference is the same insertion-ordered map: first position,
+    // last value), so a regression of that repair is reported under its own key again
     let (dup_new, init_name) = match &init {
         Init::New(es) => (has_dup(es), "new"),
         Init::From(es) => (has_dup(es), "from"),
@@ -371,7 +329,7 @@ fn gen_entries(rng: &mut Rng, u: u64, n: usize, distinct: bool) -> Vec<(u64, i64
 }
 
 fn container_cases(ctx: &mut Ctx) {
-    // ---- corpus: witnesses of the repaired `insert` defect (index len+1) and of `new` with a repeated key
+    // ---- corpus: witnesses of the two repaired defects: `insert` (index len+1) and `new` with a repeated key
     let seq = |n: u64| -> Vec<(u64, i64)> { (0..n).map(|k| (k * 3 % 11, 100 + k as i64)).collect() };
     let corpus: Vec<(u64, Init, Vec<(u64, i64)>)> = vec![
         // 8 distinct inserts, then every accessor
@@ -395,7 +353,7 @@ fn container_cases(ctx: &mut Ctx) {
             v.extend([(seq(8)[6].0, 5), (seq(8)[1].0, 6)]);
             v
         }), vec![(10, 1)]),
-        // `new` with a repeated key: falls into the NEntries arm with a gap in the indices
+        // `new` with a repeated key (used to fall into the NEntries arm with a gap in the indices)
         (3, Init::New(vec![(1, 10), (1, 20)]), vec![]),
         (3, Init::New(vec![(0, 10), (0, 20), (1, 30)]), vec![(2, 40)]),
         (8, Init::New(vec![(0, 1), (1, 2), (2, 3), (3, 4), (1, 5), (5, 6)]), vec![(6, 7), (7, 8)]),
@@ -1094,7 +1052,7 @@ fn run_sm(ctx: &mut Ctx, idx: usize, u: usize, feats: Vec<(String, Feat)>, ops: 
                 ctx.nontrivial(&case);
             }
             if let Some((key, msg)) = fails.first() {
-                // a model built by `new` from a list with a repeated name is the container's known defect
+                // a model built by `new` from a list with a repeated name: key of the defect repaired in 6da9498
                 let key = if dup_new { "container/new-duplicate-key" } else { key };
                 ctx.fail(idx, key, msg.clone());
             }
